@@ -48,8 +48,8 @@ def run(chk):
     chk.rule("C09.O5", "every results-name read by the tree walker is produced by the grammar", 2)
     chk.rule("C09.O6", "tree walker: descriptions, range markers, nested modifiers -> tuples (nesting preserved, order preserved)", 6)
     chk.rule("C09.O7", "builder: forms/modifiers instantiated with their arguments in order; ranges chained in listing order", 5)
-    chk.rule("C09.O8", "documented modifiers and pymath functions are exactly the registered ones", 3)
-    chk.rule("C09.O9", "key normalisation: optionxform == dictionary transform; '=' and ':' both delimit (parser options untouched)", 6)
+    chk.rule("C09.O8", "documented modifiers and pymath functions are exactly the registered ones", 2)
+    chk.rule("C09.O9", "key normalisation: optionxform == dictionary transform; '=' and ':' both delimit (parser options untouched)", 5)
     chk.rule("C09.O10", "pymath.NAME forwards its arguments, in order, to the math function of the same name", 30)
     chk.attempt("O10", lambda: pymath_forwarding(chk, P))
     chk.attempt("O1", lambda: modifiers(chk, P))
@@ -185,7 +185,7 @@ def custom_forms(chk, P):
         if k.v in ("first", "second", "third"):
             fn = J.getattr(pf, "potential_function")
             table_of[k.v] = set(fn.attrs["_local_symbol_table"].obj.functions.d)
-    rsite = reg.lookup("_register_with_each_other").site()
+    rsite = reg.site_of("_register_with_each_other")
     for name in ("first", "second", "third"):
         others = {"first", "second", "third"} - {name}
         got = table_of.get(name, set())
@@ -195,7 +195,7 @@ def custom_forms(chk, P):
     chk.ob("C09.O3", "custom forms can call the built-in forms as as.NAME(...)", {"as.buck", "as.zbl", "as.polynomial"} <= got, site=rsite,
            found=sorted(x for x in got if x.startswith("as."))[:6], expect="as.* functions", key="C09.O3|as-functions")
     chk.ob("C09.O3", "custom forms can call pymath.NAME(...)", {"pymath.sqrt", "pymath.exp", "pymath.fsum"} <= got,
-           site=reg.lookup("_register_pymath_functions").site(), found=sorted(x for x in got if x.startswith("pymath."))[:6],
+           site=reg.site_of("_register_pymath_functions"), found=sorted(x for x in got if x.startswith("pymath."))[:6],
            expect="pymath.* functions", key="C09.O3|pymath-functions")
 
 
@@ -204,7 +204,7 @@ def signatures(chk, P):
     cls = P.cls(CP, "ConfigParser")
     cp = InstV(cls)
     cfg = P.cls("atsim.potentials.config._common", "ConfigurationException")
-    site = cls.lookup("_parse_potential_form_signature").site()
+    site = cls.site_of("_parse_potential_form_signature")
     for text, want in (("f(r,A,B)", ("f", ["r", "A", "B"])), ("  my_form2( r , rho )  ", ("my_form2", ["r", "rho"])), ("g(r)", ("g", ["r"]))):
         r = W.run_method(I, cp, "_parse_potential_form_signature", [Const(text)])
         ok = isinstance(r, NTV) and r.cls.fields[:2] == ["label", "parameter_names"] and r.values[0].v == want[0] \
@@ -275,7 +275,7 @@ def tree_walker(chk, P):
     mod = P.module("atsim.potentials.config._common")
     mrd = I.module_global(mod, "MultiRangeDefinitionTuple")
     cp.attrs["_default_range_start"] = I.call(mrd, [Const(">"), Num(ep.const(0))], {})
-    site = cls.lookup("_descend_tree").site()
+    site = cls.site_of("_descend_tree")
 
     def walk(nodes):
         return I.call(I.getattr(cp, "_descend_tree"), [I.call(ExtV("builtins.iter"), [ListV(nodes, "list")], {})], {})
@@ -344,7 +344,7 @@ def builder(chk, P):
     mods = DictV()
     mods.items[Const("sum").key()] = (Const("sum"), PyObjV(Factory("sum")))
     b = I.instantiate(bcls, [forms, mods], {}, None)
-    site = bcls.lookup("_make_multi_range_tuple").site()
+    site = bcls.site_of("_make_multi_range_tuple")
     third = I.call(pfi, [Const("as.c"), ListV([], "list"), I.call(mrd, [Const(">"), Num(ep.const(4))], {}), NONE], {})
     second = I.call(pfi, [Const("as.b"), ListV([Num(ep.const(7))], "list"), I.call(mrd, [Const(">="), Num(ep.const(2))], {}), third], {})
     first = I.call(pfi, [Const("as.a"), ListV([Num(ep.const(1)), Num(ep.const(2))], "list"), I.call(mrd, [Const(">"), Num(ep.const(0))], {}), second], {})
@@ -381,7 +381,7 @@ def builder(chk, P):
     potobj = W.run_method(I, pbi, "_create_potential", [row, PyObjV(PFB())])
     ok = isinstance(potobj, InstV) and I.getattr(potobj, "speciesA").v == "O" and I.getattr(potobj, "speciesB").v == "U" \
         and I.getattr(potobj, "potentialFunction").key() == Opaque(("built", W.param("defn").key())).key()
-    chk.ob("C09.O7", "a [Pair] row 'O-U : DEFN' becomes Potential('O', 'U', function of DEFN)", ok, site=pb.lookup("_create_potential").site(),
+    chk.ob("C09.O7", "a [Pair] row 'O-U : DEFN' becomes Potential('O', 'U', function of DEFN)", ok, site=pb.site_of("_create_potential"),
            found=potobj.attrs if isinstance(potobj, InstV) else potobj, expect="Potential(O, U, built(defn))", key="C09.O7|pair-row")
 
 
@@ -392,7 +392,7 @@ def documented(chk, P):
     I = F.make_interp(P)
     mr = I.instantiate(P.cls("atsim.potentials.config._modifier_registry", "Modifier_Registry"), [], {}, None)
     reg = set(k.v for k, _ in mr.attrs["_modifiers"].items.values())
-    site = P.cls("atsim.potentials.config._modifier_registry", "Modifier_Registry").lookup("_register_standard").site()
+    site = P.cls("atsim.potentials.config._modifier_registry", "Modifier_Registry").site_of("_register_standard")
     chk.ob("C09.O8", "the registered modifiers are exactly the documented ones", reg == doc_mods and len(reg) >= 5, site=site, found=sorted(reg),
            expect=sorted(doc_mods), key="C09.O8|modifiers")
     for name, comb in (("sum", "plus"), ("product", "product"), ("pow", "pow")):
@@ -401,33 +401,23 @@ def documented(chk, P):
     sect = txt2[txt2.index("ref-potable-input-pymath"):txt2.index("ref-potable-input-tabulation:")]
     doc_fn = set(re.findall(r"^\s+\* `(\w+)\(", sect, re.M))
     pm = P.module("atsim.potentials.config._pymath")
-    have = set(n for n, b in pm.bindings.items() if b.kind == "func" and not n.startswith("_"))
+    have = set(pymath_functions(F.make_interp(P), P))
     chk.ob("C09.O8", "every documented pymath function exists in the _pymath module (%d documented)" % len(doc_fn), doc_fn <= have and len(doc_fn) >= 25,
            site=pm.relpath, found=sorted(doc_fn - have) or None, expect="documented subset of defined", key="C09.O8|pymath")
-    # each pymath wrapper forwards to the same-named math function with its arguments in order
-    bad = []
-    # module-level aliases of math functions (e.g. _gcd = math.gcd)
-    alias = {}
-    for node in ast.walk(pm.tree):
-        if isinstance(node, ast.Assign) and isinstance(node.value, ast.Attribute) and isinstance(node.value.value, ast.Name) \
-                and node.value.value.id == "math":
-            for t in node.targets:
-                if isinstance(t, ast.Name):
-                    alias[t.id] = node.value.attr
-    for n in sorted(have):
-        defs = [d for d in ast.walk(pm.tree) if isinstance(d, ast.FunctionDef) and d.name == n]
-        ok = False
-        for d in defs:
-            for c in ast.walk(d):
-                if isinstance(c, ast.Call):
-                    if isinstance(c.func, ast.Attribute) and isinstance(c.func.value, ast.Name) and c.func.value.id == "math" and c.func.attr == n:
-                        ok = True
-                    if isinstance(c.func, ast.Name) and alias.get(c.func.id) == n:
-                        ok = True
-        if not ok:
-            bad.append(n)
-    chk.ob("C09.O8", "each pymath.NAME forwards to math.NAME (%d wrappers)" % len(have), not bad, site=pm.relpath, found=bad or None,
-           expect="math.<same name>", key="C09.O8|pymath-forward")
+
+
+def pymath_functions(I, P):
+    """{name: function value} of the public functions the _pymath module offers (what inspect.getmembers(module, isfunction)
+    sees): definitions, conditional definitions and names bound while the module is imported"""
+    pm = P.module("atsim.potentials.config._pymath")
+    out = {}
+    for n in I.module_names(pm):
+        if n.startswith("_"):
+            continue
+        v = I.module_global(pm, n)
+        if isinstance(v, FuncV):
+            out[n] = v
+    return out
 
 
 def delimiters(chk, P):
@@ -443,63 +433,44 @@ def delimiters(chk, P):
            key="C09.O9|delimiters")
 
 
-# ---------------------------------------------------------------------------
-# accepted deviations of a pymath wrapper from 'return math.NAME(<parameters in order>)', each confirmed by reading
-PYMATH_EQUIVALENTS = {
-    # name: (callee accepted, argument pattern) - pattern items: parameter name, ("int", parameter), ("const", value), "*"
-    "log2": [("math.log2", ["x"]), ("math.log", ["x", ("const", 2)])],      # fallback for interpreters without math.log2
-    "fsum": [("math.fsum", ["args"])],                                      # documented: varargs collected into one iterable
-    "log": [("math.log", ["*args"])],
-}
-
-
 def pymath_forwarding(chk, P):
-    m = P.module("atsim.potentials.config._pymath")
-    aliases = {}
-    defs = []
+    """each public pymath function, called with one symbolic number per parameter, returns what math.NAME returns for the same
+    numbers in the same order (the listed conversions are the documented ones: whole-number arguments go through int())"""
+    I = F.make_interp(P)
+    pm = P.module("atsim.potentials.config._pymath")
+    funcs = pymath_functions(I, P)
+    M_ = lambda name: ExtV("math." + name)
 
-    def collect(body):
-        for st in body:
-            if isinstance(st, ast.FunctionDef):
-                defs.append(st)
-            elif isinstance(st, ast.If):
-                collect(st.body)
-                collect(st.orelse)
-            elif isinstance(st, ast.Assign) and len(st.targets) == 1 and isinstance(st.targets[0], ast.Name):
-                aliases.setdefault(st.targets[0].id, []).append(ast.unparse(st.value))
-    collect(m.tree.body)
-    for fd in defs:
-        if fd.name.startswith("_"):
-            continue
-        site = "%s:%d %s" % (m.relpath, fd.lineno, fd.name)
-        params = [a.arg for a in fd.args.args]
-        if fd.args.vararg is not None:
-            params.append("*" + fd.args.vararg.arg)
-        body = [st for st in fd.body if not (isinstance(st, ast.Expr) and isinstance(st.value, ast.Constant))]
-        ok = len(body) == 1 and isinstance(body[0], ast.Return) and isinstance(body[0].value, ast.Call) and not body[0].value.keywords
-        found = ast.unparse(body[0]) if body else "empty"
-        if ok:
-            call = body[0].value
-            callee = ast.unparse(call.func)
-            callees = [callee] + aliases.get(callee, [])      # a module-level alias (math.gcd / fractions.gcd)
-            pattern = []
-            for a in call.args:
-                if isinstance(a, ast.Name):
-                    pattern.append(a.id)
-                elif isinstance(a, ast.Starred) and isinstance(a.value, ast.Name):
-                    pattern.append("*" + a.value.id)
-                elif isinstance(a, ast.Call) and isinstance(a.func, ast.Name) and a.func.id == "int" and len(a.args) == 1 \
-                        and isinstance(a.args[0], ast.Name):
-                    pattern.append(a.args[0].id)        # int(x): the documented conversion for integer-only functions
-                elif isinstance(a, ast.Constant):
-                    pattern.append(("const", a.value))
-                else:
-                    pattern.append(("?", ast.unparse(a)))
-            std = any(c.split(".")[-1] == fd.name and c.split(".")[0] in ("math", "fractions") for c in callees) and pattern == params
-            alt = any(callee == c and pattern == [x if not (isinstance(x, str) and x == "args") else "args" for x in pat]
-                      for c, pat in PYMATH_EQUIVALENTS.get(fd.name, []))
-            if fd.name == "fsum":
-                alt = callee == "math.fsum" and pattern == [params[0].lstrip("*")]
-            ok = std or alt
-        chk.ob("C09.O10", "pymath.%s(%s) = math.%s of the same arguments in the same order" % (fd.name, ", ".join(params), fd.name), ok,
-               site=site, found=found, expect="return math.%s(%s)" % (fd.name, ", ".join(params)), key="C09.O10|%s" % fd.name)
+    def int_(v):
+        return I.x_int([v], {}, None, None)
+    reference = {
+        "factorial": lambda a: [I.call(M_("factorial"), [int_(a[0])], {})],
+        "gcd": lambda a: [I.call(M_("gcd"), [int_(a[0]), int_(a[1])], {})],
+        "ldexp": lambda a: [I.call(M_("ldexp"), [a[0], int_(a[1])], {})],
+        "fsum": lambda a: [I.call(M_("fsum"), [ListV(list(a), "tuple")], {})],
+        # math.log2 where the interpreter has it, math.log(x, 2) otherwise
+        "log2": lambda a: [I.call(M_("log2"), list(a), {}), I.call(M_("log"), [a[0], Num(ep.const(2))], {})],
+    }
+    arities = {"log": (1, 2), "fsum": (3,)}
+    for name in sorted(funcs):
+        f = funcs[name]
+        a = f.fi.node.args
+        fixed = [x.arg for x in a.posonlyargs + a.args]
+        counts = [len(fixed)] if a.vararg is None else [len(fixed) + c for c in arities.get(name, (1, 2))]
+        site = f.fi.site()
+        ok, found, expect = True, None, None
+        for c in counts:
+            args = [Num(ep.sym("x%d" % i_), True) for i_ in range(c)]
+            try:
+                got = I.call(f, list(args), {})
+            except RaiseSignal as e:
+                ok, found, expect = False, "raises %r" % (e.exc,), "math.%s(...)" % name
+                break
+            want = reference.get(name, lambda a_: [I.call(M_(name), list(a_), {})])(args)
+            if not any(isinstance(got, Num) and isinstance(w, Num) and got.key() == w.key() for w in want):
+                ok, found, expect = False, got, want[0]
+                break
+        chk.ob("C09.O10", "pymath.%s(%s) = math.%s of the same arguments in the same order" % (name, ", ".join(fixed + (["*" + a.vararg.arg] if a.vararg else [])), name),
+               ok, site=site, found=found, expect=expect, key="C09.O10|%s" % name)
+
+
